@@ -319,7 +319,10 @@ package httpserver
 //@   loop 1 use best_miss(old(t), old(remainingPath), K())
 //@   loop 1 decreases len(remainingPath)
 
-//@ unit server_servehttp props=C12 filter=`httpserver\.Server\)\.ServeHTTP$`
+//@ unit server_servehttp frames=on props=C12 filter=`httpserver\.Server\)\.ServeHTTP$`
+//@ // the replacer constructor only wraps the request body for {request_body}; nothing this handler reads (explicit frame-empty assumption)
+//@ func NewReplacer
+//@   ensures result != nil
 //@ ghost errCalls int
 //@ ghost lastErr int
 //@ ghost panicked int
@@ -332,11 +335,13 @@ package httpserver
 //@   may_panic
 
 //@ func (*Server).ServeHTTP
+//@   modifies ghost:errCalls, ghost:lastErr
 //@   requires s != nil && r != nil && r.URL != nil && panicked == 0
 //@   ensures [at_most_one_error_body] errCalls <= old(errCalls) + 1
 //@   ensures [panic_gives_500] panicked == 1 ==> (errCalls == old(errCalls) + 1 && lastErr == 500)
 
-//@ unit client_hello_conn props=C19 filter=`clientHelloConn\)\.Read$`
+//@ unit client_hello_conn frames=on props=C19 filter=`clientHelloConn\)\.Read$`
+//@ use caskethttp/httpserver/contracts_verif.go:client_hello_parser
 //@ ghostfn blen
 //@ extern (*bytes.Buffer).Len
 //@   pure reads ghost:blen
@@ -352,11 +357,12 @@ package httpserver
 //@   ensures result1 != nil ==> blen(r) <= old(blen(r))
 
 //@ func (*clientHelloConn).Read
+//@   modifies E:uint8, E:uint16, E:crypto/tls.CurveID, clientHelloConn.readHello, ghost:blen, rawHelloInfo, MV:map[string]github.com/tmpim/casket/caskethttp/httpserver.rawHelloInfo, MD:map[string]github.com/tmpim/casket/caskethttp/httpserver.rawHelloInfo
 //@   requires c != nil && c.buf != nil && c.listener != nil && c.listener.helloInfos != nil
 //@   at call invoke:(io.Reader).Read#1 do blen(c.buf) = blen(c.buf) + result0
 //@   ensures [buffer_invariant] (!old(c.readHello) && !c.readHello && err == nil) ==> blen(c.buf) == old(blen(c.buf)) + n
 
-//@ unit hello_listener_accept props=C19 filter=`tlsHelloListener\)\.Accept$`
+//@ unit hello_listener_accept frames=on props=C19 filter=`tlsHelloListener\)\.Accept$`
 //@ // The ClientHello recorded for a connection is parsed from the bytes THAT connection sent: the capture buffer comes
 //@ // from a pool shared by all connections, and the connection handed to crypto/tls starts with it empty.
 //@ ghostfn blen
@@ -424,7 +430,7 @@ package httpserver
 //@   modifies ghost:verbatimLines, ghost:formattedLines, ghost:held
 //@   ensures [formatted_once] formattedLines == old(formattedLines) + 1 && verbatimLines == old(verbatimLines)
 
-//@ unit new_replacer props=C20 filter=`httpserver\.NewReplacer$`
+//@ unit new_replacer frames=on props=C20 filter=`httpserver\.NewReplacer$`
 //@ // The replacer a directive asks for substitutes ITS OWN marker for empty values (the log directive's "-"), reads the
 //@ // request and the recorder it was given, and shares the request-body capture and custom placeholders of the replacer
 //@ // already installed in the request context, if there is one.
@@ -435,6 +441,7 @@ package httpserver
 //@   ensures result != nil
 //@ func NewReplacer
 //@   requires r != nil
+//@   modifies Request.Body
 //@   ensures [own_empty_value_request_and_recorder] result != nil && (*replacer)(result).emptyValue == emptyValue && (*replacer)(result).request == r && (*replacer)(result).responseRecorder == rr
 
 //@ unit log_roller frames=on props=C08 filter=`httpserver\.LogRoller\)\.GetLogWriter$`
@@ -454,7 +461,7 @@ package httpserver
 //@   ensures [new_file_gets_one_roller] (!absFails(l.Filename) && !old(has(lumberjacks, absPathOf(l.Filename)))) ==> (has(lumberjacks, absPathOf(l.Filename)) && result == lumberjacks[absPathOf(l.Filename)] && fresh(result))
 //@   ensures [other_files_keep_their_rollers] forallT(k, string, (absFails(l.Filename) || k != absPathOf(l.Filename)) && (!absFails(l.Filename) || k != l.Filename) ==> (has(lumberjacks, k) == old(has(lumberjacks, k)) && lumberjacks[k] == old(lumberjacks[k])))
 
-//@ unit trim_path_prefix props=C02,C01 filter=`httpserver\.trimPathPrefix$`
+//@ unit trim_path_prefix frames=on props=C02,C01 filter=`httpserver\.trimPathPrefix$`
 //@ // A site defined with a path prefix sees the request URL with the prefix cut off. Whatever the rest looks like, it is
 //@ // still a path of THIS site: the URL handed to the site's handlers names no other host or scheme (they build their
 //@ // redirects from it: "every redirect starts with exactly one '/'"), or it is the original URL when re-parsing failed.
@@ -523,7 +530,12 @@ package httpserver
 //@   loop 1 invariant forall(k, 0, #i, under(cfgs()[k]) ==> lastHidden(cfgs()[k]) == hiddenName(cfgs()[k]))
 //@   loop 1 invariant forall(k, #i, len(cfgs()), len(cfgs()[k].HiddenFiles) == old(len(cfgs()[k].HiddenFiles)))
 
-//@ unit inspect_server_blocks props=C06,C15,C01 verify_pure=on filter=`httpserver\.httpContext\)\.InspectServerBlocks$|httpserver\.Address\)\.Normalize$`
+//@ unit inspect_server_blocks frames=on props=C06,C15,C01 verify_pure=on filter=`httpserver\.httpContext\)\.InspectServerBlocks$|httpserver\.Address\)\.Normalize$`
+//@ func standardizeAddress
+//@ func (Address).String
+//@   pure
+//@ func (Address).Key
+//@   pure
 //@ // Every site that enters the context's list carries its NORMALISED address (lower-cased host, canonical IP text), and
 //@ // its TLS config is filed under that same host name: MakeTLSConfig keys the SNI lookup by TLS.Hostname verbatim, the
 //@ // host screening of automatic HTTPS reads Addr.Host, and the vhost trie is keyed by the address. (A host taken from the
@@ -548,6 +560,7 @@ package httpserver
 //@ extern github.com/tmpim/casket/caskettls.NewConfig
 //@   ensures result1 == nil ==> result0 != nil
 //@ func (*httpContext).InspectServerBlocks
+//@   modifies Config.Hostname, E:*github.com/tmpim/casket/caskethttp/httpserver.SiteConfig, MD:map[string]*github.com/tmpim/casket/caskethttp/httpserver.SiteConfig, MD:map[string][]github.com/tmpim/casket/casketfile.Token, MV:map[string]*github.com/tmpim/casket/caskethttp/httpserver.SiteConfig, MV:map[string][]github.com/tmpim/casket/casketfile.Token, httpContext.siteConfigs
 //@   requires h != nil && h.keysToSiteConfigs != nil
 
 //@ unit trie_match frames=on props=C01 filter=`vhostTrie\)\.Match$`
@@ -650,9 +663,9 @@ package httpserver
 //@   loop 1 invariant forall(k, 0, #i, Q(configs[k]) ==> configs[k].TLS.Managed)
 //@   loop 1 invariant forall(k, 0, len(configs), configs[k].TLS.Managed ==> (old(configs[k].TLS.Managed) || exists(j, 0, #i, configs[j].TLS == configs[k].TLS && Q(configs[j]))))
 
-//@ unit client_hello_parser props=C19 filter=`httpserver\.parseRawClientHello$`
+//@ unit client_hello_parser frames=on props=C19 filter=`httpserver\.parseRawClientHello$`
 //@ func parseRawClientHello
-//@   ensures [suites_counted] true
+//@   modifies E:uint16, E:crypto/tls.CurveID, E:uint8
 //@   loop 1 invariant 0 <= i && i <= numCipherSuites && len(info.CipherSuites) == numCipherSuites && cipherSuiteLen == 2*numCipherSuites && 2 + cipherSuiteLen <= len(data)
 //@   loop 1 decreases numCipherSuites - i
 //@   loop 2 decreases len(data)
